@@ -346,7 +346,7 @@ def write_evidence(pid, tier, seed, runs, obligations, discharged, violations, k
             if pid in o['tags'] and len(samples) < 8:
                 samples.append(dict(unit=r.name, obligation=oid, status=o['status']))
     ev = dict(
-        property_id=pid, tier=tier, seed=seed, level='proof',
+        property_id=pid, tier=tier, seed=seed, level='proof' if runs else 'other',
         coverage=dict(
             obligations=obligations, discharged=discharged,
             checker_cmd=' ; '.join(c for c in cmds if c) or 'verus <unit>.rs --output-json --time',
@@ -375,10 +375,11 @@ def write_evidence(pid, tier, seed, runs, obligations, discharged, violations, k
 def check_property(pid, tier='quick', seed=0):
     t0 = time.time()
     names = units_for(pid)
-    if not names:
+    from . import cex as _cx
+    if not names and pid not in _cx.PROPERTY_BOUNDED:
         print('UNDECIDED property=%s no unit serves this property' % pid)
         return 2
-    runs = run_units(names, tier)
+    runs = run_units(names, tier) if names else []
     kf = known_findings()
     base = baseline()
     undecided = []
@@ -467,6 +468,14 @@ def check_property(pid, tier='quick', seed=0):
             bounded.append(dict(harness=h, bound=d.get('bound'), cases=d.get('cases'), verdict=d.get('status'), counterexample=d.get('counterexample'), cmd=d.get('cmd'), note=d.get('note')))
             if d.get('status') == 'counterexample' and bounded_cex is None:
                 bounded_cex = d
+            for kfj in d.get('known', []):
+                listed = [k for k in kf.get('findings', []) if k.get('id') == kfj.get('known_finding') and pid in k.get('properties', [])]
+                if listed:
+                    line = 'KNOWN-FINDING: property=%s %s -- %s' % (pid, listed[0]['id'], listed[0].get('what', ''))
+                    if line not in kf_lines:
+                        kf_lines.append(line)
+                elif bounded_cex is None:
+                    bounded_cex = dict(d, counterexample='unlisted finding %s: %s' % (kfj.get('known_finding'), kfj.get('first_input')))
     for l in kf_lines:
         print(l)
     # known findings leave their obligation undischarged by construction: count them out of both numbers
@@ -537,7 +546,7 @@ def check_property(pid, tier='quick', seed=0):
     write_evidence(pid, tier, seed, runs, n_obl_rep, n_dis, len(violations), kf_lines, undecided, time.time() - t0,
                    extra=dict(obligations_total=n_obl, obligations_not_discharged=kf_obl, bounded=bounded, **(extra or {})))
     if rc == 0:
-        print('OK property=%s obligations=%d discharged=%d units=%s wall=%.1fs' % (pid, n_obl, n_dis, ','.join(names), time.time() - t0))
+        print('OK property=%s obligations=%d discharged=%d units=%s bounded=%s wall=%.1fs' % (pid, n_obl, n_dis, ','.join(names), ','.join('%s:%s' % (b['harness'], b['verdict']) for b in bounded) or '-', time.time() - t0))
     return rc
 
 
